@@ -7,10 +7,14 @@ import (
 	"crypto/ed25519"
 	"crypto/elliptic"
 	"crypto/rand"
+	"crypto/sha256"
+	"encoding/base64"
 	"encoding/json"
 	"fmt"
 
 	"github.com/btcsuite/btcd/btcec"
+	"github.com/btcsuite/btcutil/base58"
+	"github.com/multiformats/go-multibase"
 
 	"github.com/trustbloc/sidetree-core-go/pkg/api/operation"
 	"github.com/trustbloc/sidetree-core-go/pkg/commitment"
@@ -277,18 +281,118 @@ func idMarkHash(id, mark string) int {
 	return h
 }
 
-// keyJSON: the marker is carried in the x coordinate (the validator only checks presence); purposes and
-// key type vary with (id, marker) so that documents differ in more than ids.
+// Document keys come in several shapes (chosen by (id, marker)), so that documents differ in more than ids and every
+// key form the protocol allows passes through intake, composer and transformer:
+//
+//	0 JsonWebKey2020, EC JWK                      (marker in x; the validator only checks presence)
+//	1 EcdsaSecp256k1VerificationKey2019, EC JWK   (marker in x)
+//	2 Ed25519VerificationKey2018, OKP/Ed25519 JWK (shown externally as publicKeyBase58)
+//	3 Ed25519VerificationKey2020, OKP/Ed25519 JWK (shown externally as publicKeyMultibase)
+//	4 X25519KeyAgreementKey2019, OKP/X25519 JWK   (single-coordinate key: no y member)
+//	5 JsonWebKey2020, OKP/X25519 JWK
+//	6 Ed25519VerificationKey2018, publicKeyBase58
+//
+// For shapes 2-6 the key material is derived from (id, marker); markOf maps it back.
+const keyShapes = 7
+
+var (
+	verificationPurposeSets = []string{`["authentication"]`, `["assertionMethod"]`, `[]`, `["capabilityDelegation","capabilityInvocation"]`, `["authentication","assertionMethod"]`}
+	agreementPurposeSets    = []string{`["keyAgreement"]`, `[]`}
+	markOf                  = map[string]string{}
+)
+
+func keyShape(id, mark string) int { return (idMarkHash(id, mark) / 7) % keyShapes }
+
+func keyMaterial(id, mark string) []byte {
+	h := sha256.Sum256([]byte("key|" + id + "|" + mark))
+
+	return h[:]
+}
+
+func keyPurposeSet(id, mark string) string {
+	h := idMarkHash(id, mark)
+
+	switch keyShape(id, mark) {
+	case 2, 3, 6:
+		return verificationPurposeSets[h%len(verificationPurposeSets)]
+	case 4:
+		return agreementPurposeSets[h%len(agreementPurposeSets)]
+	default:
+		return purposeSets[h%len(purposeSets)]
+	}
+}
+
 func keyJSON(id, mark string) string {
 	h := idMarkHash(id, mark)
-	typ := []string{"JsonWebKey2020", "JsonWebKey2020", "EcdsaSecp256k1VerificationKey2019"}[h%3]
 
-	purposes := `"purposes":` + purposeSets[h%len(purposeSets)] + ","
-	if purposeSets[h%len(purposeSets)] == "[]" {
+	purposes := `"purposes":` + keyPurposeSet(id, mark) + ","
+	if keyPurposeSet(id, mark) == "[]" {
 		purposes = "" // a key without purposes: a plain verification method (an empty list would be refused)
 	}
 
+	raw := keyMaterial(id, mark)
+	x := base64.RawURLEncoding.EncodeToString(raw)
+
+	switch keyShape(id, mark) {
+	case 2, 3:
+		markOf[x] = mark
+		typ := []string{"", "", "Ed25519VerificationKey2018", "Ed25519VerificationKey2020"}[keyShape(id, mark)]
+
+		return fmt.Sprintf(`{"id":%q,"type":%q,%s"publicKeyJwk":{"kty":"OKP","crv":"Ed25519","x":%q}}`, id, typ, purposes, x)
+	case 4, 5:
+		markOf[x] = mark
+		typ := []string{"X25519KeyAgreementKey2019", "JsonWebKey2020"}[keyShape(id, mark)-4]
+
+		return fmt.Sprintf(`{"id":%q,"type":%q,%s"publicKeyJwk":{"kty":"OKP","crv":"X25519","x":%q}}`, id, typ, purposes, x)
+	case 6:
+		b58 := base58.Encode(raw)
+		markOf[b58] = mark
+
+		return fmt.Sprintf(`{"id":%q,"type":"Ed25519VerificationKey2018",%s"publicKeyBase58":%q}`, id, purposes, b58)
+	}
+
+	typ := []string{"JsonWebKey2020", "JsonWebKey2020", "EcdsaSecp256k1VerificationKey2019"}[h%3]
+
 	return fmt.Sprintf(`{"id":%q,"type":%q,%s"publicKeyJwk":{"kty":"EC","crv":"P-256","x":%q,"y":"nM84jDHCMOTGTh_ZdHq4dBBdo4Z5PkEOW9jA8z8IsGc"}}`, id, typ, purposes, mark)
+}
+
+// KeyMark extracts the marker from a document key entry (internal or external form): the x coordinate, base58 or
+// multibase value, mapped back through the material table where the material was derived.
+func KeyMark(entry map[string]interface{}) string {
+	v := ""
+
+	if jwk, ok := entry["publicKeyJwk"].(map[string]interface{}); ok {
+		v, _ = jwk["x"].(string)
+	} else if s, ok := entry["publicKeyBase58"].(string); ok {
+		v = s
+	} else if s, ok := entry["publicKeyMultibase"].(string); ok {
+		v = s
+	}
+
+	if m, ok := markOf[v]; ok {
+		return m
+	}
+
+	return v
+}
+
+// ExternalKeyValue is what the resolver's external document must show for the key (id, marker): the member name and
+// its value (JWK x coordinate, base58 or multibase string).
+func ExternalKeyValue(id, mark string) (string, string) {
+	raw := keyMaterial(id, mark)
+
+	switch keyShape(id, mark) {
+	case 2, 6:
+		return "publicKeyBase58", base58.Encode(raw)
+	case 3:
+		mb, _ := multibase.Encode(multibase.Base58BTC, raw)
+
+		return "publicKeyMultibase", mb
+	case 4, 5:
+		return "publicKeyJwk", base64.RawURLEncoding.EncodeToString(raw)
+	}
+
+	return "publicKeyJwk", mark
 }
 
 func svcJSON(id, mark string) string {
@@ -303,7 +407,7 @@ func svcJSON(id, mark string) string {
 // external document must reference the key from exactly these.
 func KeyPurposes(id, mark string) []string {
 	var out []string
-	_ = json.Unmarshal([]byte(purposeSets[idMarkHash(id, mark)%len(purposeSets)]), &out)
+	_ = json.Unmarshal([]byte(keyPurposeSet(id, mark)), &out)
 
 	return out
 }
